@@ -545,7 +545,7 @@ pub fn c16_from_rows_map_rejects_n3() {
     from_rows::<3, 4>(1, false);
 }
 
-// @verif prop=C16 tier=thorough fl=f1 role=from-rows/weighted t=3600 mem=24
+// @verif prop=C16 tier=exp fl=f1 role=from-rows/weighted t=3600 mem=24
 #[cfg_attr(kani, kani::proof)]
 #[cfg_attr(kani, kani::unwind(10))]
 pub fn c16_from_weight_rows_n3() {
